@@ -221,6 +221,75 @@ def wl_bloom(ctx, rng, case):
         sc.cleanup()
 
 
+def wl_aligned_dense(ctx, rng, case):
+    """plain Bloom filters (in memory and on disk) whose cell array is an exact multiple of a power-of-two block size (512 bytes .. 256 KiB)
+    and in which most bytes carry a bit (positions handed over through add_alt, so the expected cells are known without any hashing): bytes(),
+    the export file, the backing file, the hex form and the files exported by union / intersection are the documented cells + footer"""
+    import probables as P
+
+    est, rate, m, k = gen.aligned_geometry(rng, max_len=270000)
+    nbytes = (m + 7) // 8
+    case.desc = {"kind": "block-aligned dense bloom", "est": est, "rate": rate, "bits": m, "hashes": k, "cell_bytes": nbytes}
+    ctx.observe("block_aligned_lengths", nbytes, cap=200)
+    sc = bl.Scratch(ctx, case)
+    objs = []
+    try:
+        def build(on_disk, share):
+            f = P.BloomFilterOnDisk(sc.path("al"), est, rate) if on_disk else P.BloomFilter(est, rate)
+            objs.append(f)
+            cells = bytearray(nbytes)
+            pos = [8 * b + rng.randrange(min(8, m - 8 * b)) for b in range(nbytes) if rng.random() < share]
+            pos += [m - 1, 8 * (nbytes - 1), 0]  # first byte, last byte, last bit
+            n_adds = 0
+            for i in range(0, len(pos), k):
+                grp = pos[i:i + k]
+                grp += [grp[0]] * (k - len(grp))
+                f.add_alt(list(grp))
+                n_adds += 1
+                for p in grp:
+                    cells[p // 8] |= 1 << (p % 8)
+            return f, bytes(cells), n_adds
+
+        f, cf, nf = build(rng.random() < 0.5, 0.7)
+        g, cg, ng = build(rng.random() < 0.3, 0.5)
+        for name, o, cells, added in (("first", f, cf, nf), ("second", g, cg, ng)):
+            data = bytes(o)
+            ctx.counters["disagreements_checked"] += 1
+            ctx.check(len(data) == nbytes + 20 == o.export_size(), f"bytes() of the {name} block-aligned filter has {len(data)} bytes, the layout requires {nbytes + 20}")
+            ctx.check(data[:-20] == cells, f"cells exported by the {name} block-aligned filter differ from the positions that were set",
+                      first_difference=next((i for i, (x, y) in enumerate(zip(data, cells)) if x != y), None))
+            st = refimpl.parse_bloom(data)
+            ctx.check((st["est"], st["added"], st["m"]) == (est, added, m) and st["fpr32"] == refimpl.f32(rate), f"footer of the {name} block-aligned filter differs from its parameters")
+            p = sc.path("exp")
+            o.export(p)
+            with open(p, "rb") as fh:
+                ctx.check(fh.read() == data, f"export(path) of the {name} block-aligned filter differs from bytes()")
+            hx = o.export_hex()
+            ctx.check(hx.lower() == cells.hex() + refimpl.BLOOM_FOOTER_BE.pack(st["est"], st["added"], st["fpr32"]).hex(), f"hex export of the {name} block-aligned filter is not cells + big-endian footer")
+        AND = bytes(a & b for a, b in zip(cf, cg))
+        OR = bytes(a | b for a, b in zip(cf, cg))
+        for name, r, want in (("f.union(g)", f.union(g), OR), ("g.union(f)", g.union(f), OR), ("f.intersection(g)", f.intersection(g), AND), ("g.intersection(f)", g.intersection(f), AND)):
+            ctx.check(r is not None, f"{name} of two block-aligned filters of one geometry returned None")
+            if r.elements_added < 0:
+                continue
+            rd = bytes(r)
+            ctx.counters["disagreements_checked"] += 1
+            ctx.check(len(rd) == nbytes + 20, f"the file exported by {name} (block-aligned) has {len(rd)} bytes, the layout requires {nbytes + 20}")
+            ctx.check(rd[:-20] == want, f"the file exported by {name} (block-aligned) does not hold the AND / OR of the operands' cells",
+                      first_difference=next((i for i, (x, y) in enumerate(zip(rd, want)) if x != y), None))
+            ctx.count("programs.derived_files_checked")
+        ctx.count("block_aligned_dense_files")
+        case.nontrivial = True
+    finally:
+        for o in objs:
+            if hasattr(o, "close"):
+                try:
+                    o.close()
+                except Exception:
+                    pass
+        sc.cleanup()
+
+
 # ------------------------------------------------------------------------------- count-min
 
 def wl_ondisk_big(ctx, rng, case):
@@ -552,6 +621,7 @@ PROP = Prop(
         Workload("cuckoo", wl_cuckoo, quick=300, thorough=80000),
         Workload("header", wl_header, quick=12, thorough=1000),
         Workload("ondisk_big", wl_ondisk_big, quick=2, thorough=16),
+        Workload("aligned_dense", wl_aligned_dense, quick=10, thorough=300),
     ],
     assumptions=["the C reference (cref/ppref.c) was written from the documented layout, not from the library; built with clang -fsanitize=address,undefined -fno-sanitize-recover=all",
                  "geometries whose ceil/round argument is within 1e-9 of a breakpoint are not used (C and Python floating point may legitimately differ there)",
